@@ -22,7 +22,7 @@ def mk(pid, xyz, r):
     from swcgeom.core import Tree
     n = len(pid)
     xyz = np.asarray(xyz, dtype=np.float64)
-    return Tree(n, id=np.arange(n, dtype=np.int32), pid=np.array(pid, dtype=np.int32), type=np.full(n, 3, dtype=np.int32),
+    return Tree(n, source=lib.SRC, id=np.arange(n, dtype=np.int32), pid=np.array(pid, dtype=np.int32), type=np.full(n, 3, dtype=np.int32),
                 x=xyz[:, 0].astype(np.float32), y=xyz[:, 1].astype(np.float32), z=xyz[:, 2].astype(np.float32), r=np.array(r, dtype=np.float32))
 
 
